@@ -399,6 +399,36 @@ def run_case(rec, seed, k, i, tier):
                               f"the returned field: true residual {true:.6e}"
                               f" (rel {true/refnorm:.3e}), tol {tol:.3e}",
                               case)
+    # ---- every 8th fresh-field case: the same model / source objects are
+    # used for a second solve; the inputs must not have been altered by the
+    # first one (the second result is judged by the same residual oracle).
+    if supplied is None and i % 8 == 3 and c['api'] == 'solve' and \
+            not case.get('second_solve'):
+        rec.event('input_reuse_checks')
+        if not np.array_equal(np.array(sfield.field), svec):
+            rec.violation('C01:solver-modifies-source-field', 'the source '
+                          'field handed to solve() was changed by it', case)
+        buf2 = io.StringIO()
+        with contextlib.redirect_stdout(buf2):
+            try:
+                ret2 = emg3d.solve(model, sfield, **{**kw, 'return_info':
+                                                      True, 'verb': -1})
+            except Exception as e2:  # noqa
+                ret2 = None
+                rec.inconclusive(f'second solve raised {e2}', case)
+        if ret2 is not None:
+            e2, info2 = ret2
+            t2 = float(np.linalg.norm(ref.residual(svec, np.array(e2.field))))
+            fl2 = 50*np.finfo(float).eps*float(np.linalg.norm(
+                abs(ref.A) @ np.abs(e2.field) + np.abs(svec)))
+            if info2['exit'] == 0 and not (
+                    t2 <= tol*refnorm*(1+1e-6) + fl2):
+                rec.violation('C01:second-solve-with-same-objects',
+                              f'a second solve with the same model/source '
+                              f'objects reports success but the independent '
+                              f'residual is {t2:.3e} > tol*ref '
+                              f'{tol*refnorm:.3e} (first solve was fine)',
+                              case)
     rec.distinct((str(kw['cycle']), str(kw['sslsolver']),
                   sc_class(kw['semicoarsening']),
                   sc_class(kw['linerelaxation']), c['supplied'] is not None,
